@@ -1,6 +1,6 @@
 CONSTANTS Graphs = {"line", "tri", "dead", "selfl", "pair", "star4", "ring4"} T = 5 QE = {0, 1, 2, 3} QN = {0, 1, 2} NodeModes = {TRUE, FALSE} NEs = {TRUE, FALSE}
   Widths = {0, 1, 2} Cuts = {"none", "dist", "init", "prob", "both"} MaxOps = 6 SAMPLE = 2 Moves = {"m11", "m10"} EMIT = TRUE
-  ExhGraphs = {} Debugs = {FALSE}
+  ExhGraphs = {} Debugs = {FALSE} REUSE = TRUE
 SPECIFICATION Spec
 INVARIANT EmitBehaviour
 CHECK_DEADLOCK FALSE
